@@ -196,6 +196,42 @@ func runStructural(id string, prog *Program, specs *SpecSet, known *KnownFile) e
 				ok = false
 				offenders = append(offenders, "field not found: "+st.Subject)
 			}
+		case "perrun-state":
+			// perrun-state <label>: F, G, ...  - none of the listed (builder)
+			// functions allocates a variable in its own body that one of its nested
+			// closures (at any depth) writes. A builder runs once per description
+			// (Flow, Source), its inner factory closure once per materialisation:
+			// state that the per-element closures update must be created by the
+			// factory, not by the builder, or all materialisations share it.
+			for _, it := range st.Items {
+				fn := prog.lookupFunc(st.PkgPath, it)
+				if fn == nil {
+					ok = false
+					offenders = append(offenders, "function not found: "+it)
+					continue
+				}
+				for _, b := range fn.Blocks {
+					for _, in := range b.Instrs {
+						mc, isMC := in.(*ssa.MakeClosure)
+						if !isMC {
+							continue
+						}
+						cf, _ := mc.Fn.(*ssa.Function)
+						if cf == nil {
+							continue
+						}
+						for j, bind := range mc.Bindings {
+							al, isAlloc := bind.(*ssa.Alloc)
+							if !isAlloc || al.Parent() != fn {
+								continue
+							}
+							if closureWritesFreeVar(cf, j, 0) {
+								offenders = append(offenders, fmt.Sprintf("%s allocates %q, which its closure %s (or one nested in it) writes", it, al.Comment, funcKey(cf)))
+							}
+						}
+					}
+				}
+			}
 		case "callers":
 			tpkg, tkey := st.PkgPath, st.Subject
 			if i := strings.Index(tkey, "::"); i >= 0 {
@@ -400,4 +436,48 @@ func readOnlyUses(v ssa.Value, depth int) []string {
 		}
 	}
 	return out
+}
+
+
+// closureWritesFreeVar: does closure fn store through its idx-th free variable
+// (directly, through an interior address, or by handing it to a nested closure
+// that does)?
+func closureWritesFreeVar(fn *ssa.Function, idx int, depth int) bool {
+	if idx >= len(fn.FreeVars) || depth > 8 {
+		return false
+	}
+	fv := fn.FreeVars[idx]
+	var rooted func(v ssa.Value) bool
+	rooted = func(v ssa.Value) bool {
+		switch x := v.(type) {
+		case *ssa.FreeVar:
+			return x == fv
+		case *ssa.FieldAddr:
+			return rooted(x.X)
+		case *ssa.IndexAddr:
+			return rooted(x.X)
+		}
+		return false
+	}
+	for _, b := range fn.Blocks {
+		for _, in := range b.Instrs {
+			switch x := in.(type) {
+			case *ssa.Store:
+				if rooted(x.Addr) {
+					return true
+				}
+			case *ssa.MakeClosure:
+				cf, _ := x.Fn.(*ssa.Function)
+				if cf == nil {
+					continue
+				}
+				for j, bind := range x.Bindings {
+					if bind == ssa.Value(fv) && closureWritesFreeVar(cf, j, depth+1) {
+						return true
+					}
+				}
+			}
+		}
+	}
+	return false
 }
